@@ -17,9 +17,12 @@ EXPLANATION = (
     "coefficient matrices and checked to be transposes of each other and orthonormal, with the base translation "
     "subtracted before / added after and no constant term (the base maps to (0,0,0)); degree/radian factors are "
     "reciprocal; the Lambert constant blocks are equal and the isometric-latitude expressions mutually inverse; "
-    "whole-track conversions convert with the old base before recording the new one.")
+    "whole-track conversions convert with the old base before recording the new one.  Every clause is decided by C14.N, which interprets "
+    "the conversion code itself (whatever way the formulas are written) on a lattice of 480 positions, 60 base / point pairs and 70 "
+    "Lambert-93 points against closed forms computed by the checker and against the round-trip tolerances of the property (1e-9 degree, "
+    "1 mm); the symbolic rules add the all-inputs identity when the formulas are in a shape their reader follows, and stand down otherwise.")
 ASSUMPTIONS = ["floating-point accuracy (1e-9 degree / 1 mm) of the Bowring one-step inverse is numerical analysis, not decided here"]
-TECHNIQUE = 'polynomial / trigonometric identity checking of the conversion formulas against closed-form specifications on symbolic return values (F2), matrix transpose / orthonormality (F2), projection constants identified by value and compared across the pair (F5), abstract interpretation of the whole-track conversions on tagged positions (bounded case domain)'
+TECHNIQUE = 'abstract interpretation of the conversion code by the checker\'s AST interpreter on a lattice of positions, bases and Lambert-93 points against closed forms and round-trip tolerances computed by the checker (C14.N, decides every clause; bounded case domain); polynomial / trigonometric identity checking of the conversion formulas against closed-form specifications on symbolic return values (F2), matrix transpose / orthonormality (F2), projection constants identified by value and compared across the pair (F5), abstract interpretation of the whole-track conversions on tagged positions (bounded case domain)'
 
 
 def vr(v):
